@@ -41,7 +41,11 @@ def good : Code where
   guardBareClosed := true
   guardWrapClosed := false
   guardOtherClosed := false
-
+  guardDeadlineExpired := false
+  bgOrigin := .plainCancel
+  bgCancelOnlyInClose := true
+  srcNextGetsBg := true
+  bgCtxUsesPinned := true
 
 /-! The generated guards, over the model's natural-number state. -/
 theorem firstItemCond_nat (n : Nat) : (Gen.Batch.firstItemCond (n : Int) = true) ↔ n = 1 := by
@@ -60,7 +64,8 @@ theorem timerDur_nat (now bs mw : Nat) :
 theorem timerResetDur_eq : Gen.Batch.timerResetDur = Gen.Batch.timerDur := rfl
 
 macro "unfold_step" " at " h:ident : tactic => `(tactic| (
-  simp only [step, good, afterFull, startTimer, stopTimer, since, firstItemCond_nat, timerDur_nat,
+  simp only [step, good, bgDone, Code.bgMayEnd, bne_self_eq_false, Bool.false_or, Bool.false_and, Bool.or_false,
+    Bool.false_eq_true, false_and, afterFull, startTimer, stopTimer, since, firstItemCond_nat, timerDur_nat,
     endFlushCond_nat, waitNonEmptyCond_nat, waitElapsed_nat, decide_eq_true_eq,
     Bool.and_eq_true, Bool.or_eq_true, Bool.not_true, Bool.or_true, Bool.true_and, Bool.and_true,
     if_true, if_false, and_true, true_and, ite_true, ite_false] at $h:ident))
@@ -115,6 +120,11 @@ theorem inv1_tick {cfg : Cfg} {s s' : State} (d : _) (hi : Inv1 cfg s)
 
 theorem inv1_close {cfg : Cfg} {s s' : State} (hi : Inv1 cfg s)
     (h : step good cfg s (.close) = some s') : Inv1 cfg s' := by
+  obtain ⟨c1, t1a, t_set, t_ne, t_len, t_armed, t_fired, n1, n2, u0, u3, u1⟩ := hi
+  unfold_step at h <;> (repeat' split at h) <;> cases h <;> close_inv
+
+theorem inv1_bgEnds {cfg : Cfg} {s s' : State} (hi : Inv1 cfg s)
+    (h : step good cfg s (.bgEnds) = some s') : Inv1 cfg s' := by
   obtain ⟨c1, t1a, t_set, t_ne, t_len, t_armed, t_fired, n1, n2, u0, u3, u1⟩ := hi
   unfold_step at h <;> (repeat' split at h) <;> cases h <;> close_inv
 
@@ -207,6 +217,7 @@ theorem inv1_step {cfg : Cfg} {s s' : State} {l : Label} (hi : Inv1 cfg s)
   | ctxExpire => exact inv1_ctxExpire hi h
   | tick d => exact inv1_tick d hi h
   | close => exact inv1_close hi h
+  | bgEnds => exact inv1_bgEnds hi h
   | prodCancelled => exact inv1_prodCancelled hi h
   | prodSend => exact inv1_prodSend hi h
   | prodSendCancel => exact inv1_prodSendCancel hi h
